@@ -85,13 +85,16 @@ class Analysis:
         self._gc()
 
     def _gc(self):
-        """Keep the cache small: drop cache entries of other tree states older than a day, keep at most 3."""
+        """Keep the cache bounded: drop entries of other tree states beyond the newest 6 that are older than 3 hours
+        (parallel runs on scratch copies create many short-lived entries; they are removed by their driver)."""
         try:
+            now = time.time()
             ents = [(os.path.getmtime(os.path.join(CACHE, d)), d) for d in os.listdir(CACHE)
                     if os.path.isdir(os.path.join(CACHE, d)) and d != os.path.basename(self.dir) and len(d) == 20]
             ents.sort(reverse=True)
-            for _, d in ents[2:]:
-                shutil.rmtree(os.path.join(CACHE, d), ignore_errors=True)
+            for mt, d in ents[6:]:
+                if now - mt > 3 * 3600:
+                    shutil.rmtree(os.path.join(CACHE, d), ignore_errors=True)
         except Exception:
             pass
 
@@ -139,12 +142,21 @@ class Analysis:
         """The desert_core library crate (non-test build)."""
         return self.program(features).crate("desert_core", False)
 
+    def _ws_copy(self, name, out):
+        """copy a harness crate of /verif into the cache and point its path dependencies at the analysed repo"""
+        src = os.path.join(VERIF, name)
+        ws = os.path.join(out, "ws")
+        shutil.copytree(src, ws, ignore=shutil.ignore_patterns("target", "Cargo.lock"))
+        ct = os.path.join(ws, "Cargo.toml")
+        open(ct, "w").write(open(ct).read().replace('"/repo/', '"%s/' % REPO))
+        shutil.copy(os.path.join(REPO, "Cargo.lock"), os.path.join(ws, "Cargo.lock"))
+        return ws
+
     def corpus_dir(self):
         def run(out):
-            ws = os.path.join(VERIF, "corpus")
-            shutil.copy(os.path.join(REPO, "Cargo.lock"), os.path.join(ws, "Cargo.lock"))
-            self._extract(ws, out, ["--all-targets"])
-        return self._step("facts-corpus-" + sub_hash("corpus"), run)
+            ws = self._ws_copy("corpus", out)
+            self._extract(ws, os.path.join(out, "facts"), ["--all-targets"])
+        return os.path.join(self._step("facts-corpus-" + sub_hash("corpus"), run), "facts")
 
     def corpus(self):
         if "corpus" not in self._programs:
